@@ -123,6 +123,19 @@ pub fn check_c13_c15(h: &Hist, want13: bool, want15: bool) -> POut {
                     for (k, est) in ests {
                         let m = model.estimate(*k);
                         let n = model.recorded_since_reset.get(k).copied().unwrap_or(0).min(16) as i64;
+                        // upper bound (C13: stale popularity decays, counters do not grow by
+                        // themselves): a count-min estimate exceeds the key's own count by at most
+                        // what colliding keys contribute - here: everything every other key holds -
+                        // plus the doorkeeper's false positive and the rounding of joint halvings
+                        if want13 {
+                            // (a doorkeeper false positive sends a key's FIRST access to the counters
+                            // too, so every other key counts with its counter and its doorkeeper bit)
+                            let others: i64 = model.ctr.iter().filter(|(j, _)| **j != *k).map(|(_, c)| *c as i64).sum::<i64>() + model.door.iter().filter(|j| **j != *k).count() as i64;
+                            let bound = (m + others + 1 + model.resets.min(4) as i64).min(16);
+                            if *est > bound {
+                                out.violations.push(violk("C13", "R3-overcount", e.seq, *k, "estimate higher than the key's own recordings plus everything colliding keys could add", format!("key {}: estimate {} > bound {} (own reference {}, all other keys together {}, resets so far {}, num_counters={})", k, est, bound, m, others, model.resets, model.n)));
+                            }
+                        }
                         if *est < m || *est < n {
                             let p = if want13 { "C13" } else { "C15" };
                             out.violations.push(violk(p, if want13 { "R1-undercount" } else { "R4-estimate-misses-lookups" }, e.seq, *k, "estimate lower than the recordings applied since the last reset", format!("key {}: estimate {} < reference {} (recorded {} times since the last reset; num_counters={}, resets so far {})", k, est, m, n, model.n, model.resets)));
